@@ -2214,12 +2214,10 @@ R.mutant("put-timed-wait-once", QUEUE,
              "                if self._full():\n                    self.not_full.wait(timeout)\n                    if self._full():\n                        raise Full\n"), "C25-R4")
 
 # ---------------------------------------------------------------------- C25-R7 (every exceptional exit hands the record back)
-# Inputs named r7-* / benign-r7-* apply to today's tree.  The keys `…_ConnectionRecord.checkin:…` and `…_finalize_fairy:…`
-# FIRE on today's tree (findings/C24_failing_finaliser_leaks_pool_slot.py, C25_failing_checkin_listener_leaks_pool_slot.py,
-# C26_cancel_during_reset_skips_checkin.py), so a mutant of those two functions cannot add a new (rule, key) today: the inputs
-# for them are written against the FIXED shape (/tmp/fx/pool_fix1.patch, pool_fix2.patch) and kept in AFTER_FIX.
-# ==> After the two `fix:` commits: turn every entry of AFTER_FIX into a plain `R.mutant(*entry)` (drop the env switch below);
-#     until then `C25_R7_AFTER_FIX=1 SQLASTATIC_ROOT=<tree with both patches> ./check C25 --selftest-only` runs them.
+# The two findings of this rule on the original tree (checkin: failing finaliser / checkin listener; _finalize_fairy: non-Exception
+# re-raise in front of the check-in; findings/C24_failing_finaliser_leaks_pool_slot.py, C25_failing_checkin_listener_leaks_pool_slot.py,
+# C26_cancel_during_reset_skips_checkin.py) are fixed in /repo (b091da1, abfbc05); AFTER_FIX holds the inputs written against the
+# fixed shape of those two functions (un-fix mutants first).
 R.mutant("r7-checkout-get-connection-handler-narrowed-to-exception", POOL,
          sub("            dbapi_connection = rec.get_connection()\n        except BaseException as err:",
              "            dbapi_connection = rec.get_connection()\n        except Exception as err:"), "C25-R7")
@@ -2370,7 +2368,5 @@ AFTER_FIX = [
          "                if not connection_record:\n                    raise\n                if connection_record.fairy_ref is None:\n                    raise\n"
          "                connection_record.checkin()\n                raise\n"), None),
 ]
-import os as _os  # noqa: E402
-if _os.environ.get("C25_R7_AFTER_FIX"):
-    for _a in AFTER_FIX:
-        R.mutant(*_a)
+for _a in AFTER_FIX:
+    R.mutant(*_a)
